@@ -441,7 +441,7 @@ def sample_goals(ctx: Ctx, name: str, requires: str, goals: list[tuple[str, str,
         for i, (label, expr, val, tol) in enumerate(goals):
             if i in skip:
                 continue
-            index_of_line[len(lines) + 1] = i
+            index_of_line[sum(x.count("\n") + 1 for x in lines) + 1] = i
             lines.append(f"Lemma s_{i} : Rabs ({expr} - {rlit(val)}) <= {rlit(tol)}. "
                          f"Proof. {unf}sample_tac. Qed.")
         p.write_text("\n".join(lines) + "\n")
